@@ -32,6 +32,7 @@ class Opts:
         self.big_lengths = 0.0        # probability of lengths >= 128 / 16384
         self.many_additions = 0.25    # probability that an extensible SEQUENCE gets up to 17 additions
         self.reuse_names = True
+        self.top_container = 0.65     # probability that the top-level type is a SEQUENCE/CHOICE/.. OF
         self.str_kinds = list(STR_KINDS)
         self.__dict__.update(kw)
 
@@ -122,6 +123,10 @@ class Gen:
         kinds = self.o.kinds
         if depth >= self.o.max_depth:
             kinds = [k for k in kinds if k not in ('seq', 'seqof', 'choice', 'set', 'setof')] or ['bool']
+        elif depth == 0 and r.random() < self.o.top_container:
+            kinds = [k for k in kinds if k in ('seq', 'seq', 'choice', 'seqof', 'set', 'setof')] or kinds
+            if 'seq' in kinds:
+                kinds = kinds + ['seq', 'seq']
         k = r.choice(kinds)
         if k == 'bool':
             return {'k': 'bool'}
@@ -149,7 +154,7 @@ class Gen:
         if k == 'seq':
             n = r.randint(0, self.o.max_members)
             next_ = 0
-            if self.o.allow_ext and r.random() < 0.4:
+            if self.o.allow_ext and r.random() < 0.5:
                 next_ = r.choice([0, 1, 1, 2, 3, 3, 7, 8, 9, 16, 17]) if r.random() < self.o.many_additions else r.choice([0, 1, 1, 2, 3])
             nm = self.names(n + next_)
             root = [self.member(depth, name=nm[i]) for i in range(n)]
@@ -198,6 +203,15 @@ class Gen:
 
     # ------------------------------------------------------------------ values
     def length(self, size, unit=1):
+        n = self._length(size)
+        # keep whole values below ~150k leaf items so that one case never takes seconds
+        self.budget = getattr(self, 'budget', 150000) - n
+        if self.budget < 0:
+            lo = size[0] if size else 0
+            return lo
+        return n
+
+    def _length(self, size):
         r = self.rng
         lo, hi, ext = size if size else (0, None, False)
         top = hi if hi is not None else lo + 300
@@ -234,7 +248,12 @@ class Gen:
             cands += [(lo - 1) if lo is not None else 0, (hi + 1) if hi is not None else 0]
         return r.choice(cands)
 
-    def value(self, t, for_default=False):
+    def value(self, t, for_default=False, _top=True):
+        if _top:
+            self.budget = 150000
+        return self._value(t, for_default)
+
+    def _value(self, t, for_default=False):
         r = self.rng
         k = t['k']
         if k == 'bool':
@@ -297,7 +316,7 @@ class Gen:
             n = self.length(t['size'])
             if n > 40 and not cheap(t['elem']):
                 n = 40 if not t['size'] else max(t['size'][0], min(n, 40))
-            return [self.value(t['elem']) for _ in range(n)]
+            return [self._value(t['elem']) for _ in range(n)]
         if k in ('seq', 'set'):
             d = {}
             for m in t['root']:
@@ -313,14 +332,14 @@ class Gen:
             if t['ext']:
                 alts += t['ext'] * 2
             n, at = r.choice(alts)
-            return (n, self.value(at))
+            return (n, self._value(at))
         raise ValueError(k)
 
     def member_value(self, m, d, addition=False):
         r = self.rng
         if m['opt']:
             if r.random() < 0.6:
-                d[m['name']] = self.value(m['t'])
+                d[m['name']] = self._value(m['t'])
         elif m['default'] is not None:
             x = r.random()
             if x < 0.3:
@@ -328,9 +347,9 @@ class Gen:
             elif x < 0.55:
                 d[m['name']] = m['default']
             else:
-                d[m['name']] = self.value(m['t'])
+                d[m['name']] = self._value(m['t'])
         else:
-            d[m['name']] = self.value(m['t'])
+            d[m['name']] = self._value(m['t'])
 
 
 def cheap(t):
@@ -383,8 +402,9 @@ class RefCtx:
     into named type assignments, integer bounds into value assignments, and (flagged) constraints are
     applied to a type reference instead of the builtin type."""
 
-    def __init__(self, rng, p_type=0.3, p_value=0.3, p_con_on_ref=0.0):
+    def __init__(self, rng, p_type=0.3, p_value=0.3, p_con_on_ref=0.0, con_kinds=('octs', 'bits', 'str')):
         self.rng = rng
+        self.con_kinds = con_kinds   # kinds for which `Ref (SIZE(..))` at a member is rendered
         self.p_type, self.p_value, self.p_con_on_ref = p_type, p_value, p_con_on_ref
         self.defs = []          # assignment texts, in order of creation
         self.n = 0
@@ -407,7 +427,7 @@ class RefCtx:
 def type_text(t, ind=1, ctx=None, member_pos=False):
     if ctx is not None and ind > 1 and ctx.rng.random() < ctx.p_type:
         k = t['k']
-        if member_pos and k in ('octs', 'bits', 'str') and t['size'] and ctx.rng.random() < ctx.p_con_on_ref:
+        if member_pos and k in ctx.con_kinds and t['size'] and ctx.rng.random() < ctx.p_con_on_ref:
             # T ::= <unconstrained>; use  T (SIZE(..))
             base = dict(t, size=None)
             body = _type_text(base, 1, ctx)
@@ -419,6 +439,16 @@ def type_text(t, ind=1, ctx=None, member_pos=False):
                 ctx.defs.append('%s ::= %s' % (name, body))
             ctx.flags.add('size-on-reference')
             return '%s%s' % (name, size_text(t['size']))
+        if k == 'int' and t['con'] and not t.get('ext_range') and ctx.rng.random() < ctx.p_con_on_ref:
+            # I ::= INTEGER ; use  I (lo..hi)  -- a value range applied to a shared referenced type
+            if 'INTEGER' in ctx.by_text:
+                name = ctx.by_text['INTEGER']
+            else:
+                name = ctx.fresh('I')
+                ctx.by_text['INTEGER'] = name
+                ctx.defs.append('%s ::= INTEGER' % name)
+            ctx.flags.add('range-on-reference')
+            return _type_text(t, ind, ctx).replace('INTEGER', name, 1)
         body = type_text(t, 1, _NoHoist(ctx))
         if body in ctx.by_text:
             ctx.flags.add('shared-type-reference')
@@ -455,7 +485,8 @@ def _type_text(t, ind, ctx):
         if ctx is not None:
             lo = ctx.bound(t['lo']) or lo
             hi = ctx.bound(t['hi']) or hi
-        return 'INTEGER (%s..%s%s)' % (lo, hi, ', ...' if t['ext'] else '')
+        extra = ', %d..%d' % t['ext_range'] if t.get('ext_range') else ''
+        return 'INTEGER (%s..%s%s%s)' % (lo, hi, ', ...' if t['ext'] else '', extra)
     if k == 'enum':
         items = ['%s(%d)' % nv for nv in t['root']]
         if t['ext'] is not None:
